@@ -472,6 +472,16 @@ func (ex *Exec) loopHeader(st *State, b *ssa.BasicBlock) bool {
 	fr := st.top()
 	key := fmt.Sprintf("%s#%d", baseFn(fr.fn), loopOrdinal(b))
 	invs := ex.contract.loopInvs(key)
+	if invs == nil {
+		// a loop of a callee executed in place: its invariants are those of the nearest enclosing function under contract
+		for i := len(st.frames) - 1; i >= 0 && invs == nil; i-- {
+			if f := st.frames[i].fn; f != ex.root && f.Parent() == nil {
+				if ct := ex.w.contractFor(f); ct != nil {
+					invs = ct.loopInvs(key)
+				}
+			}
+		}
+	}
 	if fr.active[b.Index] {
 		// back edge
 		for _, inv := range invs {
